@@ -2,11 +2,13 @@
 
 Wire format of a Python option value (mirrors EmdModel/Config.lean):
     N | B0 | B1 | I<int> | R<num>[:<den>] | S<cp>.<cp>... | L<n> t... | U<n> t... | A<n> t... | D<n> (S.. t)...
+    | Jb0 | Jb1 | Ji<dtype>:<int> | Jf<dtype>:<num>[:<den>]      (numpy scalars stored as option values)
 comma separated, prefix coded.  Floats are exact rationals; ints, floats and bools stay distinct.
 
 JSON form of a value inside a case dict (cases must be JSON-able):
     scalars / None as themselves, lists as lists,
-    {"$": "tuple", "v": [...]}, {"$": "array", "v": [...]}, {"$": "dict", "v": [[key, value], ...]}
+    {"$": "tuple", "v": [...]}, {"$": "array", "v": [...]}, {"$": "dict", "v": [[key, value], ...]},
+    {"$": "np", "t": "<dtype name>", "v": <python scalar>}   (a numpy scalar, e.g. np.float64(0.1))
 """
 import copy
 import math
@@ -31,6 +33,8 @@ def build(j):
             return np.array(j['v'])
         if tag == 'dict':
             return {k: build(v) for k, v in j['v']}
+        if tag == 'np':
+            return np.dtype(j['t']).type(j['v'])
         raise ValueError(tag)
     if isinstance(j, list):
         return [build(x) for x in j]
@@ -47,6 +51,8 @@ def jform(o):
         return {'$': 'array', 'v': o.tolist()}
     if isinstance(o, list):
         return [jform(x) for x in o]
+    if isinstance(o, (np.bool_, np.integer, np.floating)):
+        return {'$': 'np', 't': o.dtype.name, 'v': o.item()}
     if isinstance(o, np.generic):
         return o.item()
     return o
@@ -70,12 +76,20 @@ def toks(o, in_array=False):
         return ['N']
     if isinstance(o, (bool, np.bool_)) and (in_array or isinstance(o, bool)):
         return ['B1' if o else 'B0']
-    if isinstance(o, int) or (in_array and isinstance(o, np.integer)):
+    if (isinstance(o, int) and not isinstance(o, np.generic)) or (in_array and isinstance(o, np.integer)):
         return ['I%d' % int(o)]
-    if isinstance(o, float) or (in_array and isinstance(o, np.floating)):
+    if (isinstance(o, float) and not isinstance(o, np.generic)) or (in_array and isinstance(o, np.floating)):
         return [_rat(float(o))]
     if isinstance(o, str):
         return [_str(o)]
+    # numpy scalars stored directly as option values (np.float64 IS a float subclass: tested before `float` above
+    # only inside arrays, where tolist() semantics apply)
+    if isinstance(o, np.bool_):
+        return ['Jb1' if o else 'Jb0']
+    if isinstance(o, np.integer):
+        return ['Ji%s:%d' % (o.dtype.name, int(o))]
+    if isinstance(o, np.floating) and o.dtype.itemsize <= 8:
+        return ['Jf%s:%s' % (o.dtype.name, _rat(float(o))[1:])]
     if isinstance(o, list):
         out = ['L%d' % len(o)]
         for x in o:
@@ -144,6 +158,13 @@ def _parse(ts, i):
         return float(int(body)), i + 1
     if h == 'S':
         return _unstr(body), i + 1
+    if h == 'J':
+        if body[0] == 'b':
+            return np.bool_(body[1] == '1'), i + 1
+        parts = body[1:].split(':')
+        if body[0] == 'i':
+            return np.dtype(parts[0]).type(int(parts[1])), i + 1
+        return np.dtype(parts[0]).type(float(Fraction(int(parts[1]), int(parts[2]) if len(parts) > 2 else 1))), i + 1
     if h in 'LUA':
         n = int(body)
         xs = []
@@ -232,7 +253,27 @@ FLOATS = [0.0, 1.0, -1.0, 0.5, 0.1, 0.05, 1e-8, 1 / 3, 2.5e10, -7.25, 1e-300, 12
 INTS = [0, 1, 2, 3, -1, 4, 1000, 10 ** 12]
 
 
-def rand_scalar(rng):
+NP_FLOATS = [0.1, 0.05, 0.5, 1.0, 0.0, -7.25, 1e-8, 2.5e10, 1 / 3]
+
+
+def rand_np_scalar(rng):
+    """JSON form of a numpy scalar (values computed with numpy are the usual way such option values arise)."""
+    r = rng.random()
+    if r < 0.4:
+        return {'$': 'np', 't': 'float64', 'v': rng.choice(NP_FLOATS)}
+    if r < 0.55:
+        return {'$': 'np', 't': rng.choice(['float32', 'float16']), 'v': rng.choice([0.5, 0.25, 1.0, 0.0, -2.0, 3.0])}
+    if r < 0.65:
+        # a float32 whose value is not a short decimal: float(np.float32(0.1)) = 0.10000000149011612
+        return {'$': 'np', 't': 'float32', 'v': float(np.float32(rng.choice([0.1, 0.05, 1 / 3])))}
+    if r < 0.88:
+        return {'$': 'np', 't': rng.choice(['int64', 'int64', 'int32', 'uint8']), 'v': rng.choice([0, 1, 2, 3, 4, 100])}
+    return {'$': 'np', 't': 'bool', 'v': rng.choice([True, False])}
+
+
+def rand_scalar(rng, np_scalars=0.0):
+    if np_scalars and rng.random() < np_scalars:
+        return rand_np_scalar(rng)
     r = rng.random()
     if r < 0.12:
         return None
@@ -245,8 +286,10 @@ def rand_scalar(rng):
     return rng.choice(WORDS)
 
 
-def rand_value(rng, depth=2, plain_only=True):
-    """JSON form of a random option value."""
+def rand_value(rng, depth=2, plain_only=True, np_scalars=0.0):
+    """JSON form of a random option value (`np_scalars`: probability of a numpy scalar where a scalar is drawn)."""
+    if np_scalars:
+        return _rand_value_np(rng, depth, plain_only, np_scalars)
     r = rng.random()
     if r < 0.35 or depth <= 0:
         return rand_scalar(rng)
@@ -274,3 +317,21 @@ def rand_value(rng, depth=2, plain_only=True):
     keys = rng.sample(['mode', 'stat_length', 'reflect_type', 'alpha', 'k', 'end_values', 'a/b'], rng.randint(0, 3))
     keys = [x for x in keys if '/' not in x or not plain_only]
     return {'$': 'dict', 'v': [[x, rand_value(rng, depth - 1, plain_only)] for x in keys]}
+
+
+def _rand_value_np(rng, depth, plain_only, q):
+    """rand_value with numpy scalars as option values, inside lists / tuples (also nested) and inside dict values."""
+    r = rng.random()
+    sc = lambda: rand_scalar(rng, q)  # noqa
+    if r < 0.4 or depth <= 0:
+        return sc()
+    if r < 0.55:
+        return [sc() for _ in range(rng.randint(0, 4))]
+    if r < 0.7:
+        return {'$': 'tuple', 'v': [sc() for _ in range(rng.randint(0, 4))]}
+    if r < 0.8:
+        return rand_value(rng, depth, plain_only)           # arrays and the other shapes, without numpy scalars
+    if r < 0.9:
+        return [sc(), {'$': 'tuple', 'v': [sc(), [sc()]]}, [sc(), {'$': 'dict', 'v': [['k', sc()]]}]]
+    keys = rng.sample(['mode', 'stat_length', 'reflect_type', 'alpha', 'k', 'end_values'], rng.randint(0, 3))
+    return {'$': 'dict', 'v': [[x, _rand_value_np(rng, depth - 1, plain_only, q)] for x in keys]}
